@@ -568,6 +568,12 @@ class Fn:
             return self.stmts(rest, env)
         if k == "CompoundStmt":
             return self.stmts(list(n.get("inner", [])) + rest, env)
+        if k == "ParenExpr":
+            # a parenthesised expression statement: the macros ecpSetO / ec2SetO expand to `(e1, e2, e3)`
+            return self.stmts([n["inner"][0]] + rest, env)
+        if k == "BinaryOperator" and n.get("opcode") == ",":
+            # comma expression used as a statement: its operands in order
+            return self.stmts([n["inner"][0], n["inner"][1]] + rest, env)
         if k == "DeclStmt":
             for v in n.get("inner", []):
                 if v["kind"] != "VarDecl":
